@@ -123,6 +123,8 @@ class ContractMixin:
         if name == "old":
             snap = st.old
             return self.ev_in_snap(e.args[0], st, snap, k)
+        if name == "user_code_ran":
+            return k(mk_bool(st.user_awaits > 0), st)
         if name == "step_time":
             return k(Val(REAL, st.step_time if st.step_time is not None else self.loop_field_at(st, st.old, "time")), st)
         if name == "prev_tick":
@@ -157,14 +159,17 @@ class ContractMixin:
                         terms.append(self.eval_clause(lam.body, s, frame=fr))
                 return k(mk_bool(z3.And(*terms) if terms else z3.BoolVal(True)), s)
             return self.ev(e.args[0], st, with_cls)
-        if name == "unchanged":
+        if name == "at_loop_entry":
+            return self.ev_in_snap(e.args[0], st, st.labels.get("loop_entry") or st.old, k)
+        if name in ("unchanged", "unchanged_in_loop"):
             terms = []
+            ref_snap = st.old if name == "unchanged" else (st.labels.get("loop_entry") or st.old)
             for a in e.args:
                 key = a.value
                 for hk, sort in self.heap_keys_for(key):
                     cur = st.harr(hk, sort)
                     prev = st.heap_override
-                    st.heap_override = st.old
+                    st.heap_override = ref_snap
                     try:
                         old = st.harr(hk, sort)
                     finally:
@@ -265,6 +270,7 @@ class ContractMixin:
                             cn = None
                         vals.append(Val(REF(cn), x))
                         guards.append(x != NULL)
+                        guards.append(birth(x) <= s.clock)      # objects that exist now
                         if cn is not None:
                             guards.append(subclass(cls_of(x), cls_const(cn)))
                     bound.append(x)
@@ -306,11 +312,25 @@ class ContractMixin:
     def base_for(self, st, cn, iname):
         return st.inv_over.get((cn, iname), st.inv_base)
 
-    def touch(self, st, obj, guard=False):
+    def touch(self, st, obj, guard=False, depth=1):
         if st.in_spec or self.no_inv_assume or not isinstance(obj, Val) or obj.ty[1] is None:
             return
         if obj.t.get_id() in st.constructing:
             return
+        if depth > 0 and st.inv_base is not None:
+            key0 = ("deep", obj.t.get_id(), id(st.inv_base))
+            if key0 not in st.touched:
+                st.touched = st.touched | {key0}
+                for n in self.mro_names(obj.ty[1]):
+                    m = self.reg.models.get(n)
+                    if m is None:
+                        continue
+                    for f, ty in list(m.fields.items()) + list(m.ghost.items()):
+                        if ty[0] == "ref" and ty[1] is not None and any(self.inv_text(x) for x in self.mro_names(ty[1])):
+                            s2 = st.copy()
+                            s2.heap_override = st.inv_base
+                            t = self.read_field(s2, obj.t, n + "." + f, ty).t
+                            self.touch(st, Val(REF(ty[1]), t), guard=True, depth=depth - 1)
         cn = obj.ty[1]
         try:
             ci = self.class_info(cn)
@@ -378,6 +398,25 @@ class ContractMixin:
             visit(v, 2)
 
     def inv_formula(self, st, cn, text, obj, snap=None):
+        if snap is not None:
+            # invariants over an immutable snapshot: evaluate once for a placeholder object, then substitute
+            cache = self.__dict__.setdefault("_inv_tpl", {})
+            key = (cn, text, id(snap))
+            ent = cache.get(key)
+            if ent is None or ent[0] is not snap:
+                ph = z3.Const("inv!self!%s" % cn, RefS)
+                tpl = self.inv_formula_raw(st, cn, text, Val(REF(cn), ph), snap)
+                ent = (snap, ph, tpl)
+                cache[key] = ent
+                if len(cache) > 4000:
+                    cache.clear()
+            return z3.substitute(ent[2], (ent[1], obj.t))
+        # same construction for the current heap, so that unchanged invariants stay syntactically identical
+        ph = z3.Const("inv!self!%s" % cn, RefS)
+        tpl = self.inv_formula_raw(st, cn, text, Val(REF(cn), ph), None)
+        return z3.substitute(tpl, (ph, obj.t))
+
+    def inv_formula_raw(self, st, cn, text, obj, snap=None):
         fr = Frame(self.cur_func, None, spec=True)
         fr.locals = {"self": Val(REF(cn), obj.t), "me": Val(ANY, self.me_const)}
         base = st.copy()
@@ -645,7 +684,7 @@ class ContractMixin:
                 mods = self.parse_modifies(c, st, fr)
                 if mods and not c.pure and self.ABSTRACT_TRUTH in s.heap:
                     s.heap[self.ABSTRACT_TRUTH] = fresh("Hm!truth", s.heap[self.ABSTRACT_TRUTH].sort())
-                if mods and not c.pure:
+                if mods and not c.pure and self.may_allocate(c, info):
                     nb = fresh("clock", z3.IntSort())
                     s.assume(nb >= s.clock)
                     s.clock = nb
@@ -738,6 +777,7 @@ class ContractMixin:
                         exc = Val(REF("GeneratorExit"), e)
                         sfr.locals["sig"] = exc
                         clauses = c.on_close if c.on_close is not None else c.on_signal
+                        self.assume_close_protocol(s, z3.BoolVal(True))
                     for ens in list(clauses) + c.on_exit:
                         s.assume(self.eval_clause(ens, s, frame=sfr))
                     if not self.feasible(s):
@@ -781,6 +821,11 @@ class ContractMixin:
 
     def current_bases(self, bases):
         return bases
+
+    def may_allocate(self, c, info):
+        """callees declared `allocates=False` create no heap object on their normal paths (checked when they are
+        verified: the allocation clock at exit is the entry clock); everything else may"""
+        return c.allocates is not False
 
     def at_suspension_for_call(self, st, info):
         """calling something that may suspend is a yield point for the caller as well"""
@@ -868,6 +913,13 @@ class ContractMixin:
             self.assumptions_used.add("%s: entry assumption %s" % (fqn, t))
         for r in c.requires + c.requires_direct:
             st.assume(self.eval_clause(r, st))
+        for spec in c.assume_all:
+            cn2, _, iname2 = spec.partition(".")
+            for (iname, text, _p) in self.inv_text(cn2):
+                if iname == iname2:
+                    x = z3.Const("all!" + cn2, RefS)
+                    body = self.inv_formula(st, cn2, text, Val(REF(cn2), x), snap=st.old)
+                    st.assume(z3.ForAll([x], z3.Implies(z3.And(x != NULL, subclass(cls_of(x), cls_const(cn2)), birth(x) <= 0), body)))
         n_obl_before = len(self.obligations)
         # vacuity guard: the precondition must be satisfiable
         if not self.feasible(st):
@@ -952,6 +1004,16 @@ class ContractMixin:
 
     def check_exit(self, c, info, o, st):
         """obligations at one exit path of the function under verification"""
+        if c.ghost_any_exit:
+            states = [st]
+            for g in c.ghost_any_exit:
+                states = [s2 for s in states for s2 in self.run_ghost(g, s)]
+            for s in states:
+                self.check_exit2(c, info, o, s)
+            return
+        self.check_exit2(c, info, o, st)
+
+    def check_exit2(self, c, info, o, st):
         fr_extra = {}
         if o.kind in ("N", "R"):
             res = o.val if o.kind == "R" else NONE
@@ -1036,6 +1098,9 @@ class ContractMixin:
             self.check_normal_exit2(c, info, res, s)
 
     def check_normal_exit2(self, c, info, res, st):
+        if c.allocates is False:
+            self.emit(st, "allocates", "allocates_nothing", "no heap object is created on a normal path",
+                      z3.BoolVal(st.clock.eq(z3.IntVal(0)) or st.clock.eq(z3.IntVal(1)) and self.init_self is not None))
         extra = {"result": self.result_for_spec(st, res, c)}
         for en, spec in c.raises.items():
             w = spec.get("when")
